@@ -103,6 +103,9 @@ DeferredRuleFails(ev) ==
     \cup (IF empty /\ ev.parse.cls = "ret" /\ ev.mass.cls = "ret" /\ ev.massUnchanged
           THEN {"global_rule_without_a_modification_silently_ignored"} ELSE {})
     \cup (IF ~empty /\ SemSum(r.mods).ok /\ ev.parse.cls = "ret" /\ ev.mass.cls # "ret" THEN {"valid_global_rule_rejected"} ELSE {})
+    (* whether the rule reaches any residue of the peptide is one fact: mass and composition cannot disagree about it *)
+    \cup (IF ev.mass.cls = "ret" /\ ev.comp.cls = "ret" /\ ev.massUnchanged # ev.compUnchanged
+          THEN {"mass_and_composition_disagree_whether_the_rule_applies"} ELSE {})
 Fails(ev) == CASE ev.k = "bucket" -> BucketFails(ev)
                [] ev.k = "deferred_rule" -> DeferredRuleFails(ev)
                [] ev.k = "deferred_label" -> DeferredLabelFails(ev)
